@@ -165,10 +165,10 @@ class IndependentComponentsCopula(LevyCopula):
 
         res = 0
         for k, u in enumerate(us):
-            if not np.isinf(u):
-                product = np.prod(kronecker_symbols[:k]) * np.prod(
-                    kronecker_symbols[k + 1 :]
-                )
+            product = np.prod(kronecker_symbols[:k]) * np.prod(
+                kronecker_symbols[k + 1 :]
+            )
+            if product != 0:  # u itself may be infinite: F(inf, inf) = inf
                 res += u * product
 
         return res
